@@ -19,7 +19,11 @@ None == "none"
 \*       out  [got, success, need, newid (identity issued, or "none"), nonce (index of the challenge
 \*             carried by the response, 0 = none)],
 \*       post [conns: c -> [authd, cid], lookup: X -> connection name or "none"]
-\*  Env: k ("Ban": address of c banned by the protector from now on; "Blacklist": address of c on the operator's
+\*       newban ("temp" | "perm": the protector's own table shows a ban of c's address made on this message - accumulated
+\*             failures - that outlasts the trace / has no expiry date; "none" otherwise)
+\*  Env: k ("Ban": address of c banned through the protector from now on (how = "temp": outlasts the trace, "perm": no
+\*       expiry date, "lapsed": a ban that has run out already - not banned), until "Unban" lifts it; the protector's
+\*       clean-up tick "Cleanup" and the passage of time inside a trace lift nothing; "Blacklist": address of c on the operator's
 \*       blacklist from now on - whatever the shape of the entry and however often the server is restarted
 \*       ("Reload": the address manager is re-created from the shared storage; the lists are what they were);
 \*       "Whitelist": address of c on the operator's whitelist - the statement is silent about an address on both
@@ -90,11 +94,14 @@ TrMsg ==
         /\ issuedN' = IF e.out.nonce > 0 THEN issuedN \cup {<<e.c, e.out.nonce>>} ELSE issuedN
         /\ usedN' = IF ok /\ e.k = "P2" /\ e.over > 0 THEN usedN \cup {<<e.c, e.over>>} ELSE usedN
         /\ pre' = e.post /\ hasPre' = TRUE
-  /\ l' = l + 1 /\ UNCHANGED <<expired, barred, bl, wl>>
+        \* the protector itself declared the address banned on this message (accumulated failures): banned from now on
+        /\ barred' = IF e.newban \in {"temp", "perm"} THEN barred \cup {e.c} ELSE barred
+  /\ l' = l + 1 /\ UNCHANGED <<expired, bl, wl>>
 
 TrEnv ==
   /\ Is("Env")
-  /\ barred' = IF Ev.k = "Ban" THEN barred \cup {Ev.c} ELSE barred
+  /\ barred' = IF Ev.k = "Ban" /\ Ev.how # "lapsed" THEN barred \cup {Ev.c}   \* "lapsed": the ban has run out already
+                ELSE IF Ev.k = "Unban" THEN barred \ {Ev.c} ELSE barred          \* lifted by the operator
   /\ bl' = IF Ev.k = "Blacklist" THEN bl \cup {Ev.c} ELSE bl
   /\ wl' = IF Ev.k = "Whitelist" THEN wl \cup {Ev.c} ELSE wl
   /\ expired' = IF Ev.k \in {"Expire", "Bind"}   \* isexp: the stored expiry date of the client lies in the past now
